@@ -5,6 +5,7 @@ use vcore::{Ctx, J};
 mod c03;
 mod c01;
 mod c02;
+mod c04;
 mod c06;
 mod semcheck;
 mod c11;
@@ -17,6 +18,7 @@ fn table(prop: &str) -> Option<(RunFn, ReplayFn)> {
     "C03" => (c03::run, c03::replay),
     "C01" => (c01::run, c01::replay),
     "C02" => (c02::run, c02::replay),
+    "C04" => (c04::run, c04::replay),
     "C06" => (c06::run, c06::replay),
     "C11" => (c11::run, c11::replay),
     _ => return None,
@@ -28,6 +30,10 @@ fn main() {
   if args.len() < 2 {
     eprintln!("usage: vcheck <Cxx> [quick|thorough] | vcheck replay <file>");
     std::process::exit(2);
+  }
+  if args[1] == "worker" {
+    vcore::calls::worker_main();
+    return;
   }
   if args[1] == "probe" {
     probe(&args[2..]);
